@@ -20,6 +20,11 @@ inductive FsErr where
   | fileNotFound | permission | isADirectory | notADirectory | valueError | checksumNotImplemented
   deriving Repr, DecidableEq
 
+/-- the exceptions of the `OSError` family -/
+def FsErr.isOsError : FsErr → Bool
+  | .fileNotFound | .permission | .isADirectory | .notADirectory => true
+  | _ => false
+
 namespace Fs
 
 def get : Fs → String → Option Node
